@@ -11,15 +11,31 @@ SPEC = dict(
                 "order defined from the merge result; true exactly when the receiver strictly increased; the receiver never "
                 "decreases; the flag does not depend on the representation. The length-based detection of SetUnion and the per-key "
                 "detection of MapUnion (bottom entries filtered, new key => true, nested flag otherwise) are characterised exactly. "
-                "Tie: every flag returned by Merge::merge on ~100 concrete Rust types (all 9 ordered pairs of each generated triple, "
+                "Tie: every flag returned by Merge::merge on ~150 concrete Rust types (all 9 ordered pairs of each generated triple, "
                 "pool-exhaustive pairs, cross-representation Merge<Other>) is diffed against the compiled model; on the real code "
                 "the oracle checks changed == (new != old) with the crate's ==, changed == false <=> other <= old (partial_cmp), "
-                "and old <= new. DomPair over a totally ordered key is included. PARTIAL: tombstone lattices and union-find are C05/C04."),
+                "and old <= new. DomPair over a totally ordered key is included. Translation: the match-arm tables of WithBot/WithTop (merge, partial_cmp, eq; lattice_from/is_bot/is_top bodies), Conflict (partial_cmp, eq) and the IsTop/IsBot/Default impls of Max/Min in ord.rs (incl. the list of types impls_numeric! is instantiated with) are re-extracted from lattices/src on every run into Gen/Tables.lean as Lean functions; gen_* theorems prove them equal to the hand-written model, so a changed/added/reordered arm breaks the check even without a failing input. "
+                "PARTIAL: tombstone lattices and union-find are C05/C04 (the tombstone part is run by this check as a second part)."),
     level_note=("Trusted as C01. A Vec-backed receiver (SetUnionVec as Self) reports true for duplicates; it has no PartialOrd so it "
                 "is not a Lattice in the crate and is outside the property's domain (not instantiated)."),
     trusted_base=["std HashSet/BTreeSet/HashMap/BTreeMap extend/insert/get/len modelled as list operations"],
-    assumptions=["set/map backings hold no duplicate keys", "element/key types are u32; Max/Min over unsigned and signed integers and bool (char, () and 128-bit instantiations of the same macro are not instantiated)"],
+    assumptions=["set/map backings hold no duplicate keys", "element/key types are u32; Max/Min over unsigned and signed integers and bool (every type of the impls_numeric! list and char are instantiated; Max<()>/Min<()> - one-point, no Default - are not)"],
 )
+
+
+# Translation (T): the match-arm tables of WithBot/WithTop (merge, partial_cmp, eq, lattice_from, is_bot, is_top),
+# Conflict (partial_cmp, eq) and the IsTop/IsBot/Default table of ord.rs are re-extracted from lattices/src on
+# every run into lean/HvLat/HvLat/Gen/Tables.lean; the `gen_*` theorems prove them equal to the model.
+def _translate(ctx):
+    import importlib.util, os
+    p = os.path.join(ctx["verif"], "lean", "HvLat", "translate_tables.py")
+    sp = importlib.util.spec_from_file_location("hvlat_translate_tables", p)
+    mod = importlib.util.module_from_spec(sp)
+    sp.loader.exec_module(mod)
+    return mod.translate(ctx)
+
+
+SPEC["translate"] = _translate
 
 
 # The tombstone lattices (set_union_with_tombstones / map_union_with_tombstones) are lattices of the same
